@@ -493,6 +493,11 @@ func (rt *RoundTripper) RoundTrip(req *http.Request) (*http.Response, error) {
 			return nil, ErrDropped
 		}
 	}
+	return ResponseFrom(x, req), nil
+}
+
+// ResponseFrom builds the http.Response a client sees for a served exchange.
+func ResponseFrom(x *Exchange, req *http.Request) *http.Response {
 	resp := &http.Response{
 		StatusCode:    x.RespCode,
 		Status:        fmt.Sprintf("%d %s", x.RespCode, http.StatusText(x.RespCode)),
@@ -506,7 +511,18 @@ func (rt *RoundTripper) RoundTrip(req *http.Request) (*http.Response, error) {
 		resp.Header.Set("Authorization", x.RespToken)
 	}
 	resp.Header.Set("Message-Type", fmt.Sprint(x.RespType))
-	return resp, nil
+	return resp
+}
+
+// ExchangeFrom reads an outgoing request into an Exchange.
+func ExchangeFrom(req *http.Request) *Exchange {
+	body, _ := io.ReadAll(req.Body)
+	_ = req.Body.Close()
+	x := &Exchange{ReqToken: req.Header.Get("Authorization"), ReqBody: body}
+	var typ int
+	_, _ = fmt.Sscanf(filepath.Base(req.URL.Path), "%d", &typ)
+	x.ReqType = uint8(typ)
+	return x
 }
 
 // Serve performs one exchange against a handler, recovering panics (recorded in x.Panic).
